@@ -158,6 +158,9 @@ def run(ck: Check) -> None:
                   Case("key", ["pub_equiv", bad, proto.KeyObj(False, Pub.to_bytes(P.from_bytes(seeds[6]).public_key()))], tag="equiv-bad-kind")]
     for bad in foreign:
         cases += [Case("sign", [{"signatures": {}, "signed": {"a": 1}}, bad], tag="bad-kind-sign")]
+    # the same non-key object in both positions is no more a pair of equivalent keys than two different ones
+    for same in [None, "x", h, seeds[6], 5, (1, 2)]:
+        cases += [Case("key", ["priv_equiv", same, same], tag="bad-kind-equiv-same-object"), Case("key", ["pub_equiv", same, same], tag="bad-kind-equiv-same-object")]
     res = ck.run_cases(cases, "corr:key-helpers/value")
     for r in res:
         ck.oracle_checks += 1
